@@ -145,15 +145,19 @@ def Hinge.hash (h : Hinge) : Nat := (h.n1 + h.n2) * (h.n1 + h.n2 + 1) / 2 + h.n2
 def hingesSorted (F : List Face) : List Hinge :=
   (hinges F).mergeSort (fun h k => h.hash ≤ k.hash)
 
-/-- `apply_bending_forces` -/
-def bendingContribs (fx : FX R) (x : Nat → V3 R) (F : List Face) (p : Params R) : List (Contrib R) :=
+/-- the edge loop of `apply_bending_forces` over a given edge set -/
+def bendingContribsOf (fx : FX R) (x : Nat → V3 R) (p : Params R) (H : List Hinge) : List (Contrib R) :=
   if p.ft.all (fun t => fx.eqb t.bending (lit 0)) then [] else
-  (hingesSorted F).flatMap fun h =>
+  H.flatMap fun h =>
     let g1 := faceGeom fx x h.f1
     let g2 := faceGeom fx x h.f2
     let r := bendingHinge fx (x h.n1) (x h.n2) (x h.n3) (x h.n4) g1.1 g2.1 g1.2 g2.2
                (p.ftOf h.f1.ty).bending (p.ftOf h.f2.ty).bending
     [(h.n1, r.1), (h.n2, r.2.1), (h.n3, r.2.2.1), (h.n4, r.2.2.2)]
+
+/-- `apply_bending_forces` on a freshly built cell (edge set = `generate_edge_set`) -/
+def bendingContribs (fx : FX R) (x : Nat → V3 R) (F : List Face) (p : Params R) : List (Contrib R) :=
+  bendingContribsOf fx x p (hingesSorted F)
 
 /-- `cell::apply_internal_forces`: every `add_force`, in program order -/
 def internalContribs (fx : FX R) (x : Nat → V3 R) (F : List Face) (p : Params R) : List (Contrib R) :=
@@ -161,6 +165,45 @@ def internalContribs (fx : FX R) (x : Nat → V3 R) (F : List Face) (p : Params 
   pressureContribs fx x F pre.pressure
     ++ tensionContribs fx x F p pre.area pre.targetArea
     ++ bendingContribs fx x F p
+    ++ angleContribs fx x F p.angf
+
+/-! ### cells with unused slots (after `local_mesh_refiner::refine_mesh`, before the next `rebase`)
+
+  An edge merge leaves two face slots and one node slot unused (`is_used() == false`) in `face_lst_` / `node_lst_`;
+  every loop of `apply_internal_forces` skips them (`if(f.is_used())`).  The edge set of such a cell is maintained
+  incrementally by the refiner (which face is `f1` depends on the history), so it is an input here. -/
+
+/-- a slot of `face_lst_` -/
+structure Slot where
+  used : Bool
+  face : Face
+deriving DecidableEq, Repr
+
+/-- the faces the loops visit: the used slots, in slot order -/
+def liveFaces (S : List Slot) : List Face := S.filterMap fun s => if s.used then some s.face else none
+
+/-- an `edge` of `edge_set_` as stored: node ids and the slot numbers of its two faces -/
+structure EdgeRec where
+  n1 : Nat
+  n2 : Nat
+  f1 : Nat
+  f2 : Nat
+
+/-- what the bending loop derives from a stored edge -/
+def hingeOfEdge (S : List Slot) (e : EdgeRec) : Hinge :=
+  let d : Slot := ⟨false, ⟨0, 0, 0, 0⟩⟩
+  let f := (S.getD e.f1 d).face
+  let g := (S.getD e.f2 d).face
+  { n1 := e.n1, n2 := e.n2, f1 := f, f2 := g, n3 := f.opposite e.n1 e.n2, n4 := g.opposite e.n1 e.n2 }
+
+/-- `cell::apply_internal_forces` on a cell with unused slots and stored edge set `E` (in `std::set` order) -/
+def internalContribsSlots (fx : FX R) (x : Nat → V3 R) (S : List Slot) (E : List EdgeRec) (p : Params R) :
+    List (Contrib R) :=
+  let F := liveFaces S
+  let pre := prelude fx x F p
+  pressureContribs fx x F pre.pressure
+    ++ tensionContribs fx x F p pre.area pre.targetArea
+    ++ bendingContribsOf fx x p (E.map (hingeOfEdge S))
     ++ angleContribs fx x F p.angf
 
 /-- the order of the terms above is the order of the calls in the C++ -/
